@@ -115,8 +115,8 @@ pub fn suite_format_unicode(ctx: &Ctx, thorough: bool, props: &str) {
                                     Ok(p2) => {
                                         ctx.nontrivial();
                                         let (o, o2) = (Obs::of(&p), Obs::of(&p2));
-                                        if pos != 0 && pos != 4 && o != o2 {
-                                            ctx.violate("C09.reparse", "no character is lost, merged into another field or reinterpreted", inp(), format!("{o2:?}"), format!("{o:?}"));
+                                        if o2 != drop_insignificant(&o) {
+                                            ctx.violate("C09.reparse", "no character is lost, merged into another field or reinterpreted", inp(), format!("{o2:?}"), format!("{:?}", drop_insignificant(&o)));
                                         }
                                     },
                                 }
@@ -127,8 +127,47 @@ pub fn suite_format_unicode(ctx: &Ctx, thorough: bool, props: &str) {
             }
         }
     });
-    let _ = thorough;
+    // segment structure: every short string over dots, slashes, a letter, '%' and a space as namespace and as subpath
+    // (segments such as "...", ".a", "a." are ordinary and must survive; only "", "." and ".." are insignificant)
+    if props.contains("C09") || props.contains("C01") {
+        let segs = short_strings(&['.', '/', 'a', '%', ' '], if thorough { 7 } else { 5 });
+        par_for(segs.len(), &|i| {
+            let s = &segs[i];
+            for pos in [0usize, 4] {
+                ctx.eval();
+                let b = GenericPurlBuilder::new("t".to_owned(), "n");
+                let b = if pos == 0 { b.with_namespace(s.as_str()) } else { b.with_subpath(s.as_str()) };
+                let inp = || json!({"text": s, "position": if pos == 0 { "namespace" } else { "subpath" }});
+                let p = match guarded(|| b.build()) {
+                    Err(m) => { ctx.violate("C06.panic", "build never panics", inp(), m, "no panic".into()); continue; },
+                    Ok(Err(e)) => { ctx.violate("C09.build", "build succeeds for a valid type and non-empty name", inp(), format!("{e:?}"), "Ok".into()); continue; },
+                    Ok(Ok(p)) => p,
+                };
+                let o = Obs::of(&p);
+                let text = match guarded(|| p.to_string()) { Ok(t) => t, Err(m) => { ctx.violate("C06.panic", "to_string never panics", inp(), m, "no panic".into()); continue; } };
+                match parse_string(&text) {
+                    Err(m) => ctx.violate("C06.panic", "parsing never panics", inp(), m, "no panic".into()),
+                    Ok(Err(k)) => ctx.violate("C09.reparse", "the string form of a built PURL is accepted", inp(), format!("{text:?} -> Err({k:?})"), "Ok".into()),
+                    Ok(Ok(p2)) => {
+                        ctx.nontrivial();
+                        let o2 = Obs::of(&p2);
+                        if o2 != drop_insignificant(&o) {
+                            ctx.violate("C09.reparse", "no character is lost, merged into another field or reinterpreted", inp(), format!("{o2:?}"), format!("{:?}", drop_insignificant(&o)));
+                        }
+                    },
+                }
+            }
+        });
+    }
     ctx.sample(json!({"char": "U+0026", "position": "qualifier value"}));
+}
+
+/// C09: "namespace and subpath compared after dropping insignificant segments (empty ones, and '.'/'..' in the subpath)"
+fn drop_insignificant(o: &Obs) -> Obs {
+    let mut want = o.clone();
+    want.namespace = o.namespace.as_deref().map(|n| n.split('/').filter(|s| !s.is_empty()).collect::<Vec<_>>().join("/")).filter(|s| !s.is_empty());
+    want.subpath = o.subpath.as_deref().map(|n| n.split('/').filter(|s| !s.is_empty() && *s != "." && *s != "..").collect::<Vec<_>>().join("/")).filter(|s| !s.is_empty());
+    want
 }
 
 /// C08: names over all scalar values and short strings, all seven types, both entry points
@@ -351,6 +390,41 @@ mod recser {
     }
 }
 
+
+// a deserializer whose next value is NOT a string: whatever is asked of it, it drives one chosen `visit_*` entry point of the
+// visitor, carrying bytes / items that would spell a valid PURL if (wrongly) converted to a string
+mod probe {
+    use serde::de::{self, value, IntoDeserializer, Visitor};
+    pub const KINDS: &[&str] = &["bytes", "byte_buf", "borrowed_bytes", "bool", "u8", "u64", "i64", "u128", "f64", "unit", "none", "some", "newtype", "seq", "map"];
+    pub struct Probe(pub &'static str, pub &'static str);
+    impl<'de> de::Deserializer<'de> for Probe {
+        type Error = value::Error;
+        fn deserialize_any<V: Visitor<'de>>(self, v: V) -> Result<V::Value, value::Error> {
+            let text: &'static str = self.1;
+            match self.0 {
+                "bytes" => v.visit_bytes(text.as_bytes()),
+                "byte_buf" => v.visit_byte_buf(text.as_bytes().to_vec()),
+                "borrowed_bytes" => v.visit_borrowed_bytes(text.as_bytes()),
+                "bool" => v.visit_bool(true),
+                "u8" => v.visit_u8(1),
+                "u64" => v.visit_u64(1),
+                "i64" => v.visit_i64(-1),
+                "u128" => v.visit_u128(1),
+                "f64" => v.visit_f64(1.5),
+                "unit" => v.visit_unit(),
+                "none" => v.visit_none(),
+                "some" => v.visit_some(IntoDeserializer::<value::Error>::into_deserializer(text)),
+                "newtype" => v.visit_newtype_struct(IntoDeserializer::<value::Error>::into_deserializer(text)),
+                "seq" => v.visit_seq(value::SeqDeserializer::<_, value::Error>::new(vec![text].into_iter())),
+                "map" => v.visit_map(value::MapDeserializer::<_, value::Error>::new(vec![("purl", text)].into_iter())),
+                _ => unreachable!(),
+            }
+        }
+        serde::forward_to_deserialize_any! { bool i8 i16 i32 i64 i128 u8 u16 u32 u64 u128 f32 f64 char str string bytes byte_buf option unit
+            unit_struct newtype_struct seq tuple tuple_struct map struct enum identifier ignored_any }
+    }
+}
+
 /// C16: serde form is the string form
 pub fn suite_serde(ctx: &Ctx, thorough: bool) {
     let n = if thorough { 4 } else { 3 };
@@ -361,6 +435,17 @@ pub fn suite_serde(ctx: &Ctx, thorough: bool) {
         ctx.eval();
         if serde_json::from_value::<GenericPurl<String>>(v.clone()).is_ok() || serde_json::from_value::<Purl>(v.clone()).is_ok() {
             ctx.violate("C16.nonstring", "values that are not strings are refused", v.clone(), "Ok".into(), "Err".into());
+        }
+    }
+    // every entry point of the visitor other than the string ones, with content that spells a valid PURL
+    for kind in probe::KINDS {
+        for text in ["pkg:t/n", "pkg:npm/n@1", "pkg:maven/g/a"] {
+            ctx.eval();
+            let g: Result<GenericPurl<String>, _> = serde::Deserialize::deserialize(probe::Probe(kind, text));
+            let t: Result<Purl, _> = serde::Deserialize::deserialize(probe::Probe(kind, text));
+            if g.is_ok() || t.is_ok() {
+                ctx.violate("C16.nonstring", "values that are not strings are refused (every visitor entry point)", json!({"value_kind": kind, "content": text}), "Ok".into(), "Err".into());
+            }
         }
     }
     ctx.sample(json!("pkg:t/a?b=%26"));
